@@ -22,6 +22,7 @@ PLANS = {
             S("c02_pending", 600, 25000),
             S("c02_dial", 400, 15000),
             S("c02_stream", 400, 15000),
+            S("c02_submitrace", 600, 20000),  # cancel/abort/stop and 1 ms time-outs landing while the submitting call is still running (streams against a silent peer, sockets without a peer, sleep)
             S("c05_conc", 700, 10000, label="aiomon"),
             S("c02_reuse", 500, 15000),   # one aio reused across operation kinds: nothing leaks from one use to the next
             S("c02_many", 300, 6000),
